@@ -17,8 +17,8 @@ func init() {
 		Rule: "one run = one paginator (static, dynamic, static stream, dynamic stream) over a scripted page server (0..20 pages of 0..10 unique items, empty pages anywhere, page-fetch failure at a drawn position, iterator failure, fetch latency in simulated time; streams: future pages appearing at drawn simulated instants, DryUp issued by a second goroutine) " +
 			"driven by a generated consumer program mixing HasNext / GetNext / Stop / Close / context cancellation, then drained; " +
 			"non-trivial = at least two pages or an empty page, or a fault / stop / future page in the script; distinct = distinct (script, yielded sequence, instants) digest",
-		Real: []string{"utils/collection/pagination pagination.go, stream.go (all four paginator constructors, HasNext/GetNext/Stop/Close/DryUp)", "utils/parallelisation (cancel store, SleepWithContext)"},
-		Stub: []string{"remote collection: scripted page server (pages, iterators, fetch latency and failures)", "time: testing/synctest fake clock (back-off, grace period, arrival instants of future pages)"},
+		Real:        []string{"utils/collection/pagination pagination.go, stream.go (all four paginator constructors, HasNext/GetNext/Stop/Close/DryUp)", "utils/parallelisation (cancel store, SleepWithContext)"},
+		Stub:        []string{"remote collection: scripted page server (pages, iterators, fetch latency and failures)", "time: testing/synctest fake clock (back-off, grace period, arrival instants of future pages)"},
 		Assumptions: []string{"built with go1.26.8 (testing/synctest)", "go-deadlock detection disabled", "instants of DryUp/cancellation carry a 1ns offset so that they never tie with a poll instant (Go's scheduler would decide the order)"},
 	})
 }
